@@ -1,12 +1,109 @@
-(* C15 -- property theorems only: each is closed by [exact] of a lemma proved elsewhere. *)
+(* C15 -- property theorems only: each is closed by [exact] of a lemma proved elsewhere.
+   [engine] stands for libc regcomp(REG_EXTENDED)+regexec; the premise
+     forall re, ere_compile re <> CUnsupported -> engine re = ere_engine re
+   says it behaves as the model Pat/Ere.v on the regex strings inside that model (checked against the real
+   libc by the correspondence run).  [st0] is the arbitrary prior state of the (re-used / recycled) object. *)
 From Coq Require Import List NArith Bool.
-From Muscle Require Import Gen.Consts Pat.Ere Pat.Translate Pat.PatProofs.
+From Muscle Require Import Gen.Consts Pat.Ere Pat.EreProofs Pat.Translate Pat.Simple Pat.PatProofs.
+Import ListNotations.
+Local Open Scope N_scope.
 
-(* SetPattern fully overwrites the matcher: the observable state after SetPattern(p, simple) and the returned
-   status do not depend on the state the (re-used or recycled) object was in before. *)
+(* SetPattern fully overwrites the matcher: state and status do not depend on the prior state. *)
 Theorem C15_set_pattern_overwrites :
   forall engine st1 st2 p simple,
     obs (fst (set_pattern engine st1 p simple)) = obs (fst (set_pattern engine st2 p simple)) /\
     snd (set_pattern engine st1 p simple) = snd (set_pattern engine st2 p simple).
 Proof. exact set_pattern_overwrites. Qed.
 Print Assumptions C15_set_pattern_overwrites.
+
+(* After SetPattern the REGEXVALID flag is set iff a regex was compiled for THIS pattern, and then the
+   compiled regex is that pattern's. *)
+Theorem C15_valid_iff_compiled :
+  forall engine st0 p simple,
+    let st := fst (set_pattern engine st0 p simple) in
+    (s_valid st, if s_valid st then s_regexp st else None) =
+    match regex_string p simple with
+    | Some re => match engine re with RxOk m => (true, Some m) | RxErr => (false, None) end
+    | None => (false, None)
+    end.
+Proof. exact valid_iff_compiled. Qed.
+Print Assumptions C15_valid_iff_compiled.
+
+(* The regex model computes the denotational meaning of POSIX EREs with anchors: regexec finds a match
+   iff some infix of the subject is denoted by the expression in its context. *)
+Theorem C15_ere_exec_spec :
+  forall r s, ere_exec r s = true <->
+    exists pre mid post, s = pre ++ mid ++ post /\ cden r (isnil pre) mid (isnil post).
+Proof. exact ere_exec_spec. Qed.
+Print Assumptions C15_ere_exec_spec.
+
+(* MAIN: a pattern of the documented wildcard grammar (ordinary characters, backslash-escapes, ? , * ,
+   [..] classes, ( | ) groups, comma and bar alternatives at any depth, optional leading ~) matches a
+   string if and only if the documented meaning of the pattern says so -- for every pattern, every
+   subject, every prior state of the matcher.
+   (partial only in the character classes: their members must avoid , . + * ? \ and the bracket syntax
+    characters, see C15_class_meta_refuted; the full statement has [wf] without that restriction.) *)
+Theorem C15_translate_correct_partial :
+  forall engine, (forall re, ere_compile re <> CUnsupported -> engine re = ere_engine re) ->
+  forall neg al st0 s,
+    wf_pattern al = true ->
+    (matches (fst (set_pattern engine st0 (print_pattern neg al) true)) s = true <-> den_pattern neg al s).
+Proof. exact translate_correct. Qed.
+Print Assumptions C15_translate_correct_partial.
+
+(* Escaping a string with EscapeRegexTokens yields a pattern that matches that string and no other. *)
+Theorem C15_escape_exact :
+  forall engine, (forall re, ere_compile re <> CUnsupported -> engine re = ere_engine re) ->
+  forall s st0 t, matches (fst (set_pattern engine st0 (escape s) true)) t = true <-> t = s.
+Proof. exact escape_exact. Qed.
+Print Assumptions C15_escape_exact.
+
+(* A pattern reported unique matches exactly RemoveEscapeChars(pattern) (the law the hash-lookup path of
+   the tree traversal needs). *)
+Theorem C15_unique_exact :
+  forall engine, (forall re, ere_compile re <> CUnsupported -> engine re = ere_engine re) ->
+  forall p st0 t,
+    is_unique (fst (set_pattern engine st0 p true)) = true ->
+    (matches (fst (set_pattern engine st0 p true)) t = true <-> t = unescape p).
+Proof. exact unique_exact. Qed.
+Print Assumptions C15_unique_exact.
+
+(* The "can match more than one string" test answers yes whenever two different strings match. *)
+Theorem C15_multi_complete :
+  forall engine, (forall re, ere_compile re <> CUnsupported -> engine re = ere_engine re) ->
+  forall p st0 t1 t2,
+    matches (fst (set_pattern engine st0 p true)) t1 = true ->
+    matches (fst (set_pattern engine st0 p true)) t2 = true ->
+    t1 <> t2 ->
+    is_unique (fst (set_pattern engine st0 p true)) = false.
+Proof. exact multi_complete. Qed.
+Print Assumptions C15_multi_complete.
+
+(* ---- non-vacuity: the premises are satisfiable by non-trivial instances *)
+
+(* the engine premise is satisfied by the Ere model itself *)
+Example C15_engine_premise_sat : forall re, ere_compile re <> CUnsupported -> ere_engine re = ere_engine re.
+Proof. reflexivity. Qed.
+
+(* ex_alt (Pat/PatProofs.v) is the well-formed pattern  a?*[^b-dx](\*|e,f.)  using every construct *)
+Example C15_wf_example : wf_pattern ex_alt = true /\
+  print_pattern true ex_alt = [126; 97; 63; 42; 91; 94; 98; 45; 100; 120; 93; 40; 92; 42; 124; 101; 44; 102; 46; 41].
+Proof. vm_compute. split; reflexivity. Qed.
+Example C15_match_example :
+  matches (fst (set_pattern ere_engine sm_init (print_pattern false ex_alt) true)) [97; 120; 121; 122; 97; 102; 46] = true /\
+  matches (fst (set_pattern ere_engine sm_init (print_pattern false ex_alt) true)) [97; 120; 121; 122; 99; 102; 46] = false.
+Proof. vm_compute. split; reflexivity. Qed.
+
+(* a unique pattern with escapes and a trailing backslash:  a\*.\  *)
+Example C15_unique_example :
+  is_unique (fst (set_pattern ere_engine sm_init [97; 92; 42; 46; 92] true)) = true /\
+  unescape [97; 92; 42; 46; 92] = [97; 42; 46; 92] /\
+  matches (fst (set_pattern ere_engine sm_init [97; 92; 42; 46; 92] true)) [97; 42; 46; 92] = true.
+Proof. vm_compute. repeat split; reflexivity. Qed.
+
+(* two different strings match a*, and it is reported non-unique *)
+Example C15_multi_example :
+  matches (fst (set_pattern ere_engine sm_init [97; 42] true)) [97] = true /\
+  matches (fst (set_pattern ere_engine sm_init [97; 42] true)) [97; 98] = true /\
+  is_unique (fst (set_pattern ere_engine sm_init [97; 42] true)) = false.
+Proof. vm_compute. repeat split; reflexivity. Qed.
